@@ -31,6 +31,21 @@ def transform_list(rng, nmin=1, nmax=5, mild=False):
     """(text, ops) - text is valid per the SVG 1.1 transform BNF."""
     ops = []
     parts = []
+    if mild:
+        # well-conditioned transforms for rendering workloads: values stay in the given ranges
+        def _num(r, lo, hi, kind=None):  # noqa: shadows the module-level helper on purpose
+            kind = r.choice(("int", "dec", "dec", "float")) if kind in (None, "exp") else kind
+            if kind == "int":
+                lo2, hi2 = int(math.ceil(lo)), int(math.floor(hi))
+                if lo2 > hi2:
+                    kind = "dec"
+                else:
+                    return float(r.randint(lo2, hi2))
+            if kind == "dec":
+                return round(r.uniform(lo, hi), r.choice((1, 2, 3)))
+            return r.uniform(lo, hi)
+    else:
+        _num = globals()["_num"]
     for _ in range(rng.randint(nmin, nmax)):
         op = rng.choice(("matrix", "translate", "translate1", "scale", "scale1", "rotate", "rotate3", "skewX", "skewY"))
         if op == "matrix":
